@@ -433,7 +433,7 @@ pub fn get_ext<'a>(data: &'a [u8], lct: &LCTHeader, ext: u8) -> Result<Option<&'
         let het = lct_ext_ext[0];
         let hel = match het {
             het if het >= 128 => 4_usize,
-            _ => (lct_ext_ext[1] << 2) as usize,
+            _ => (lct_ext_ext[1] as usize) << 2,
         };
 
         if hel == 0 || hel > lct_ext_ext.len() {
